@@ -1,6 +1,6 @@
 CONSTANTS Dirs = {0, 1, 2, 3}  DotDir = 3  Names = {"a", "b", "sp", "uni", "dot"}
           MaxFiles = 2  WithEnv = TRUE  WithSingle = TRUE  AllOrders = TRUE
 SPECIFICATION MSpec
-PROPERTY RSpec
+PROPERTY RSpecP
 INVARIANTS TypeOK OneToOne NothingElseWritten InputsUntouched ErrorsNamed Isolation MDoneImpliesDone
 CHECK_DEADLOCK FALSE
